@@ -4,7 +4,7 @@ from __future__ import annotations
 
 import ast
 
-from ..absint import NONE, ClassV, Const, DictV, ListV, ObjV, Sym
+from ..absint import NONE, ClassV, Const, DictV, ExcV, ListV, ObjV, Sym
 from ..flow import FlowPolicy, exits, run_flow
 from ..repo import AnalysisError, body_walk, call_name, norm, short
 
@@ -26,6 +26,48 @@ SOURCES = {
     "mqtt": ("mqtt.py::Mqtt.mqtt_message_handler_maker.mqtt_message_handler", "decorators/mqtt.py::MQTTTriggerDecorator._mqtt_message_handler"),
     "webhook": ("webhook.py::Webhook.webhook_handler", "decorators/webhook.py::WebhookTriggerDecorator._handler"),
 }
+
+
+def shared_webhook_rule(ctx, program, rid):
+    # host fact, read from the installed library's source: a second registration of an id raises
+    import inspect
+    from homeassistant.components import webhook as ha_webhook
+    src = inspect.getsource(ha_webhook.async_register)
+    if "already defined" not in src and "ValueError" not in src:
+        ctx.skip(rid, "decorators/webhook.py::WebhookTriggerDecorator.start", "the installed Home Assistant accepts several handlers per webhook id")
+        return
+    uid = "decorators/webhook.py::WebhookTriggerDecorator.start"
+
+    def register(i, n, a, k, c, o):
+        ids = c.heap.get("$registered", ListV((), "set"))
+        wid = a[3] if len(a) > 3 else k.get("webhook_id")
+        if wid in ids.items:
+            o.add("raise", c.set("$exc", ExcV("ValueError", "Handler is already defined!")))
+            return []
+        return [(c.hset("$registered", ListV(ids.items + (wid,), "set")), NONE)]
+
+    heap = {"$registered": ListV((), "set")}
+    # registries that the class shares between its instances (class-level empty dict displays)
+    for st in program.cls("decorators/webhook.py::WebhookTriggerDecorator").body:
+        tgt = st.target if isinstance(st, ast.AnnAssign) else (st.targets[0] if isinstance(st, ast.Assign) and len(st.targets) == 1 else None)
+        if isinstance(tgt, ast.Name) and isinstance(getattr(st, "value", None), ast.Dict) and not st.value.keys:
+            heap[f"WebhookTriggerDecorator.{tgt.id}"] = DictV([])
+    outcome = []
+    for who in ("first", "second"):
+        pol = FlowPolicy(program, may_raise_all=False, cancel=False, summaries={"webhook.async_register": register, "super().start": lambda i, n, a, k, c, o: [(c, NONE)]},
+                         globals_={"WebhookTriggerDecorator": ClassV("WebhookTriggerDecorator")})
+        h = dict(heap)
+        h.update({"self.webhook_id": Const("hook1"), "self.local_only": Const(True), "self.methods": ListV((Const("POST"),), "set"), "self.dm": ObjV("dm_" + who, "FunctionDecoratorManager"),
+                  "self._registered": Const(False)})
+        ex = exits(run_flow(program, uid, pol, args={"self": ObjV("dec_" + who, "WebhookTriggerDecorator")}, heap={(k.replace("self.", f"dec_{who}.") if k.startswith("self.") else k): v for k, v in h.items()}))
+        outcome.append([(k, getattr(c.env.get("$exc"), "cls", None)) for k, c, d in ex])
+        rets = [c for k, c, d in ex if k == "return"]
+        if rets:
+            heap = {k: v for k, v in rets[0].heap.items() if k.startswith("$registered") or k.startswith("WebhookTriggerDecorator.")}
+    ok = outcome and all(o == [("return", None)] for o in outcome)
+    ctx.check(ok, rid, uid, "two decorators, one webhook id", msg=f"WebhookTriggerDecorator.start for two decorators with the id 'hook1' ends {outcome}: the second decorator's start fails "
+              f"('Handler is already defined!'), its manager rolls back and the function never triggers - every webhook message for it is lost", key="shared webhook id", node=program.func(uid),
+              rel="decorators/webhook.py")
 
 
 def evaluator_lock_rule(ctx, program, rid):
@@ -307,6 +349,9 @@ def run(ctx):
     ctx.rule("R08.8", "the variables a filter expression sees are those of the current message only: a key carried by an earlier message and absent from this one is "
              "not visible (both subsystems' evaluation helpers)", floor=2)
     filter_scope_rule(ctx, program, "R08.8")
+    ctx.rule("R08.10", "new subsystem: two @webhook_trigger decorators for one webhook id (on one function with different filters, or on two functions) are both served - "
+             "as two @event_trigger of one event type are, and as the legacy subsystem does; Home Assistant accepts one handler per id (host fact), so the registration must be shared", floor=1)
+    shared_webhook_rule(ctx, program, "R08.10")
     ctx.rule("R08.9", "a filter/guard expression is evaluated by one evaluator object whose variables are replaced per evaluation; occurrences are handled in tasks of their own, "
              "so the evaluation is serialised (held under the decorator's lock from the variable update to the result) - otherwise a filter that suspends is judged with the next "
              "message's variables (lost message, reordered runs)", floor=1)
